@@ -124,6 +124,8 @@ TrEncHdr ==
        ELSE /\ EncHeader(e.h, e.kind, e.size, e.opcode)
             /\ Done(<< <<"C11.wire", e.wire = hout'.wire>>,
                        <<"C11.agree", RawAgree(e)>>,
+                       \* through the COMBINED object: the same as the raw operation on (a clone of) the sending half alone
+                       <<"C12.indep", e.via = "combined" => RawAgree(e)>>,
                        <<"C10.length", (hf.exp = "wrath" /\ e.kind = "server") =>
                             Len(e.res.out) = (IF e.size <= 32767 THEN 4 ELSE 5)>>,
                        << p \o ".bytes", e.res.out = hout'.out>>,
@@ -147,6 +149,10 @@ TrDecHdr ==
                             (e.st = e.raw.st /\ e.res.header =
                                (IF e.kind = "client" THEN ParseClient(e.raw.out) ELSE ParseServer(e.raw.out)))>>,
                        <<"C11.roundtrip", SentOK(e, e.res.header)>>,
+                       \* through the COMBINED object: the same as the raw operation on (a clone of) the receiving half alone
+                       <<"C12.indep", (e.via = "combined" /\ HasF(e.raw, "out")) =>
+                            (e.st = e.raw.st /\ e.res.header =
+                               (IF e.kind = "client" THEN ParseClient(e.raw.out) ELSE ParseServer(e.raw.out)))>>,
                        << p \o ".bytes", e.res.header = hout'.header>>,
                        << p \o ".state", StOK(half'[e.h], e.st)>> >>,
                     {"DecHdr", "DecHdr." \o hf.exp \o "." \o e.kind, "via." \o e.via})
